@@ -129,8 +129,19 @@ def r8_5(ctx):
                     ctx.check(w == 4, f.fq, f"{norm(x.targets[0])}: {s!r}", f"{f.module.relpath}:{x.lineno}", f"guide {s!r} is 4 cells", f"tree guide {s!r} is {w} cells wide, not 4: nested labels are not indented by four cells per level and the measured width is wrong", trivial=n > 4)
     ctx.floor(n, 16, "tree guide strings")
     m = ctx.repo.fn("tree:Tree.__rich_measure__")
-    ok = any(isinstance(x, ast.Assign) and norm(x.targets[0]) == "indent" and norm(x.value) == "level * 4" for x in walk_local(m.node))
-    ctx.check(ok, m.fq, "indent = level * 4", m.where, "measure uses 4 cells per level", "Tree.__rich_measure__ does not indent by 4 cells per level")
+    # the term added to a label's measurement is <depth> * 4 (the depth bookkeeping itself is not decided here)
+    from .common import close_expr
+    terms = []
+    for c in walk_local(m.node):
+        if isinstance(c, ast.Call) and norm(c.func) == "max" and len(c.args) == 2:
+            for a in c.args:
+                if isinstance(a, ast.BinOp) and isinstance(a.op, ast.Add):
+                    for side in (a.left, a.right):
+                        e = close_expr(m, side)
+                        if isinstance(e, ast.BinOp) and isinstance(e.op, ast.Mult):
+                            terms.append(e)
+    ok = len(terms) >= 2 and all((isinstance(e.right, ast.Constant) and e.right.value == 4 and not isinstance(e.left, ast.Constant)) or (isinstance(e.left, ast.Constant) and e.left.value == 4 and not isinstance(e.right, ast.Constant)) for e in terms) and len({norm(e) for e in terms}) == 1
+    ctx.check(ok, m.fq, norm(terms[0]) if terms else "indent", m.where, "measure adds 4 cells per level to both the minimum and the maximum", "Tree.__rich_measure__ does not indent by 4 cells per level (the width of a guide) in both the minimum and the maximum")
     src = norm(f.node)
     ctx.check("push(iter(loop_last(node.children)))" in src and "push(iter(loop_last([self])))" in src, f.fq, "depth-first in child order", f.where, "children are walked in order, depth first", "Tree no longer walks children in order, depth first")
     ctx.check("sum((level.cell_length for level in prefix))" in src, f.fq, "label width = max_width - prefix cells", f.where, "label budget subtracts the guide prefix", "Tree label width does not subtract the cells of the guide prefix")
@@ -403,16 +414,16 @@ def r8_10(ctx):
         """expression is a 1-cell string (literal or module constant) or TABLE[idx] with all entries 1 cell"""
         if isinstance(e, ast.Constant) and isinstance(e.value, str):
             return len(e.value) == 1 and cw(e.value) == 1
-        if isinstance(e, ast.Name) and m.global_assign_count(e.id) == 1:
-            return one_cell_glyph(m.global_assign(e.id))
+        if isinstance(e, ast.Name) and m.module_const(e.id) is not None:
+            return one_cell_glyph(m.module_const(e.id))
         return False
 
     def table_ok(e, idx_name):
         if not (isinstance(e, ast.Subscript) and isinstance(e.value, ast.Name) and norm(e.slice) == idx_name):
             return False
-        if m.global_assign_count(e.value.id) != 1:
+        t = m.module_const(e.value.id)
+        if t is None:
             return False
-        t = m.global_assign(e.value.id)
         return isinstance(t, (ast.List, ast.Tuple)) and len(t.elts) >= 8 and all(one_cell_glyph(x) for x in t.elts)
 
     strings = {}
